@@ -30,7 +30,7 @@ UNIT_TRUSTED["daemon_gr"] = [
 UNIT_TRUSTED["daemon_peer_tx"] = [
     "prelude p_peer_tx: packet::Nlri / Attribute / Nexthop opaque, PathNlri transparent; derive(PartialEq) on Nlri is structural equality; (u32,u32) obeys the hash key model",
     "NOT under contract: PendingTx::drain_messages and buffer_messages (hashbrown drain / Entry / by-value map iteration are outside Verus's dialect; CBMC does not terminate on hashbrown) — that a drain emits every queued withdrawal before the announcements is unverified",
-    "NOT under contract: ExportMap, process_nlri_change, GroupedSink (generic sink, 11 parameters of table/policy types, iterator chains): the diff between Loc-RIB changes and what was sent is outside this check",
+    "process_nlri_change (the diff of the exportable window against what was sent) is under contract in unit daemon_export (see its trusted base); NOT under contract: ExportMap's hashbrown internals (set model assumed), GroupedSink / AdjOutSink (other NlriSink implementations)",
     "A-C01-1: one serialised stream of NlriChange per session (shard locks, channels, select loop)",
     "A-C01-2: a queued announcement is cancelled only by the withdrawal of the same prefix (precondition of PendingTx::unreach)",
 ]
@@ -77,15 +77,19 @@ UNIT_TRUSTED["daemon_export"] = [
     "table::Source kept outside Verus (atomics): remote_asn / local_asn read through accessor shims (R13); is_local (pointer identity), is_rr_client, is_rs_client assumed to return the role test they are named after; derive(PartialEq) on PeerRole structural; IpAddr::is_unspecified uninterpreted; Nexthop::addr = the address of the next hop",
     "prelude p_iter: std iterator chains (iter().filter/map/cloned/filter_map…collect, any, find, partition_point) replaced by verified loops with Seq-algebra contracts (rewrite R12 / R12c; assumed: std's adapters behave like these loops); R11 helpers (assumed): Arc::make_mut(..).retain(p) keeps exactly the elements satisfying p, u32::from(Ipv4Addr).to_be_bytes() = the address octets, [u8]::to_vec copies, chunks(4).any(== pat) = some aligned 4-byte chunk equals pat",
     "A-C09-1 (precondition of export_attrs / is_as_loop): every stored AS_PATH attribute holds a byte string (Attribute::decode guarantees it for wire input; as_path_* unwrap it)",
-    "NOT under contract: process_nlri_change (the caller that applies the echo filter `source.remote_addr == remote_addr`, then ibgp_split_horizon_suppress / rs_isolation_suppress, pre_policy_defaults, export policy, rr_reflect_attrs, with_llgr_stale_community, export_attrs in that order: generic sink, BMP taps, 11 parameters of table / policy types) and the inbound ORIGINATOR_ID / CLUSTER_LIST loop checks in rx_update (async): that the verified decision functions are consulted for every route and in this order is by inspection only",
+    "process_nlri_change is verified in place with: ExportMap modelled as the set of (family, destination id, path id) it has marked (mark_sent / mark_withdrawn / was_sent / contains_path / sent_path_ids: contracts assumed, hashbrown code not verified); the generic NlriSink modelled by a ghost log that reach / unreach append to (external trait extension: holds for every implementation that does nothing else observable to this function); BmpAdjOut::pre / post assumed not to touch the sink or the export map; table::apply_export an uninterpreted deterministic function of its arguments that keeps AS_PATH attributes well-formed (A-C09-2); RtcFilter::allows uninterpreted; NlriChange / Path mirrored transparently, new_best = first of current_paths; Source::{remote_addr,router_id} accessor shims, is_llgr_stale an atomic read as a plain field",
+    "rewrites in process_nlri_change: R16 (Option::is_some_and(closure capturing &mut) -> match), R11 (`for &pid in sent_ids.difference(&current_ids)` outlined to a Vec without duplicates in unspecified order; `current_top_n.iter().map(..).collect()` into a hash set outlined), R12c (the filter.filter.filter.take.filter_map chain -> verified loop helper), R8 (let-chains)",
+    "NOT under contract: the callers of process_nlri_change (handle_prefix_update, on_established's initial dump, do_route_refresh: async) and the effective_max / cluster_id / policy they pass; the inbound ORIGINATOR_ID / CLUSTER_LIST loop checks in rx_update (async)",
 ]
 
 # minimum number of functions that must produce obligations / of must-fail twins that must run
-FLOORS = {"daemon_fsm": 30, "daemon_gr": 4, "daemon_peer_tx": 7, "table_cmp": 20, "packet_validate": 1, "packet_parse": 1, "table_rpki": 3, "table_policy": 6, "daemon_export": 10}
+FLOORS = {"daemon_fsm": 30, "daemon_gr": 4, "daemon_peer_tx": 7, "table_cmp": 20, "packet_validate": 1, "packet_parse": 1, "table_rpki": 3, "table_policy": 6, "daemon_export": 11}
 TWIN_FLOORS = {"daemon_fsm": 8, "daemon_gr": 3, "daemon_peer_tx": 2, "table_cmp": 4, "packet_validate": 1, "packet_parse": 1, "table_rpki": 1, "table_policy": 1, "daemon_export": 1}
 
 PLAN = {
-    "C01": {"verus": ["daemon_peer_tx"], "level": "proof"},
+    "C01": {"verus": ["daemon_peer_tx", "daemon_export"], "level": "proof",
+            # of the export unit, C01 looks at the diff of the exportable window against what was sent
+            "fn_filter": {"daemon_export": ["process_nlri_change"]}},
     "C05": {"verus": ["packet_validate", "packet_parse"], "kani": ["c05_canonical_flags_table"], "level": "proof"},
     "C06": {"verus": [], "kani": ["c06_id_alloc_unique", "c06_id_dealloc_exact", "c06_id_alloc_mustfail"], "level": "other",
             "explanation": "BOUNDED stand-in, not a proof: Kani/CBMC harnesses on the real IdAllocator::{alloc,dealloc} with <= 4 bitmap words (256 live ids per shard), every word over its full 64-bit domain, under the representation invariant 'no trailing zero word': alloc returns the least free id, which no live prefix holds, marks exactly it live and keeps the shard index in bits 31..24; dealloc frees exactly its id and restores the invariant. Only the identifier-uniqueness clause of C06 is addressed; the change-stream fold and the end-of-deferral clause live in Table::{insert,remove,end_deferral,...} (note T) and are not covered."},
